@@ -109,8 +109,8 @@ def anchorMetaName (S : Schema) (sid : Nat) : String :=
 
 /-- `lyd_diff_apply_r(first_node, parent_node, diff_node, …)`: `sibs` = `*first_node` and its siblings (keys included),
 `inh` = the operation inherited from the diff ancestors (`lyd_diff_get_op`: a parent's `replace` is not inherited) -/
-def applyNode (S : Schema) : (fuel : Nat) → (sibs : List DNode) → (hasParent : Bool) → (inh : Option Op) → (d : DNode) →
-    Except AErr (List DNode)
+def applyNode (S : Schema) (fx : Fixes) : (fuel : Nat) → (sibs : List DNode) → (hasParent : Bool) → (inh : Option Op) →
+    (d : DNode) → Except AErr (List DNode)
   | 0, _, _, _, _ => .error .eint
   | fuel + 1, sibs, hasParent, inh, d =>
     let own := (getMeta d "operation").bind Op.ofBytes
@@ -121,7 +121,10 @@ def applyNode (S : Schema) : (fuel : Nat) → (sibs : List DNode) → (hasParent
       | some .replace => inh
       | some o => some o
       | none => inh
-    let applyKids := fun (m : DNode) => (noKeys S d.kids).foldlM (fun ks c => applyNode S fuel ks true childInh c) m.kids
+    -- [F56 repaired] what was copied below a moved instance only identifies it: no operation of its own, nothing to apply
+    let dkids := if fx.f56 && opO == some .replace && S.isUserOrd d.sid
+      then (noKeys S d.kids).filter (fun c => (getMeta c "operation").isSome) else noKeys S d.kids
+    let applyKids := fun (m : DNode) => dkids.foldlM (fun ks c => applyNode S fx fuel ks true childInh c) m.kids
     match opO with
     | none => .error .eint
     | some op =>
@@ -130,7 +133,7 @@ def applyNode (S : Schema) : (fuel : Nat) → (sibs : List DNode) → (hasParent
         let found := if op == .replace then findForApply S sibs d else none
         if op == .replace && found.isNone then .error .einval else
         let m0 := match found.bind (sibs[·]?) with
-          | some m => m
+          | some m => if fx.f50 && m.isTerm then m.setDflt d.flags.dflt else m       -- [F50 repaired]
           | none => dupSingle S d
         match getMeta d (anchorMetaName S d.sid) with
         | none => .error .einval
@@ -174,8 +177,8 @@ def applyNode (S : Schema) : (fuel : Nat) → (sibs : List DNode) → (hasParent
               else .ok (sibs.set i ((m.setVal d.val).setFlags d.flags))
 
 /-- `lyd_diff_apply_all(&data, diff)` -/
-def apply (S : Schema) (data diffF : List DNode) : Except AErr (List DNode) :=
-  diffF.foldlM (fun sibs d => applyNode S (heightL diffF + 1) sibs false none d) data
+def apply (S : Schema) (data diffF : List DNode) (fx : Fixes := {}) : Except AErr (List DNode) :=
+  diffF.foldlM (fun sibs d => applyNode S fx (heightL diffF + 1) sibs false none d) data
 
 mutual
 /-- the default flag of non-presence containers is not compared after apply (see the header) -/
